@@ -81,7 +81,8 @@ def gen_routes(work, pkgdir):
     out += "".join("\t%s\n" % i for i in imports) + ")\n\n"
     out += "func verifServiceMux(runtimeState *RuntimeState) *http.ServeMux {\n\tvar err error\n\t_ = err\n"
     out += "\tserviceMux := http.NewServeMux()\n" + block + "\n\treturn serviceMux\n}\n\n"
-    out += "var verifRouteExprs = []string{\n" + "".join("\t%s,\n" % json.dumps(r[0].strip()) for r in routes) + "}\n"
+    out += "var verifRouteExprs = []string{\n" + "".join("\t%s,\n" % json.dumps(r[0].strip()) for r in routes) + "}\n\n"
+    out += "// the same, evaluated by the compiler\nvar verifRoutePaths = []string{\n" + "".join("\t%s,\n" % r[0].strip() for r in routes) + "}\n"
     p = work.path("zz_verif_routes_test.go")
     open(p, "w").write(out)
     return p, [r[0].strip() for r in routes]
